@@ -342,9 +342,9 @@ def coq_res(em, r, enc, table):
     return "(Ok %s)" % enc(r["ok"])
 
 
-def case_checks(k, case, res):
-    """Returns (definitions text, [(label, boolean term, diagnostic term)])."""
-    em = Emit("c%d" % k)
+def emit_inputs(em, case, res_patches=None):
+    """Definitions of the patch domains, the patches argument and the connection list of a case.
+    Returns (doms, table, ps, cs, patch_checks)."""
     checks = []
     doms = []
     table = {}
@@ -361,8 +361,9 @@ def case_checks(k, case, res):
         doms.append(d)
         if case.get("mapjoined"):
             table["%s(%s)" % (case["mapjoined"], p["name"])] = em.patch(p["name"], case["mapjoined"], p["dim"], p["min"], p["max"])
-        checks.append(("patch%d" % i, "domain_beq (dnorm %s) (dnorm %s)" % (d, coq_domain_of_json(em, res["patches"][i], table)),
-                       "dnorm %s" % d))
+        if res_patches is not None:
+            checks.append(("patch%d" % i, "domain_beq (dnorm %s) (dnorm %s)" % (d, coq_domain_of_json(em, res_patches[i], table)),
+                           "dnorm %s" % d))
     plist = case.get("plist", list(range(len(case["patches"]))))
     ps = em.define("ps", "list domain", coq_list([doms[i] for i in plist]))
     byobj = case.get("byobj", False)
@@ -380,6 +381,13 @@ def case_checks(k, case, res):
     cs = em.define("cs", "list conn", coq_list([
         "(mkConn %s %s %s)" % (side(c, "m"), side(c, "p"), "None" if c.get("o") is None else "(Some %s)" % coq_ornt(c["o"]))
         for c in case["conns"]]))
+    return doms, table, ps, cs, checks
+
+
+def case_checks(k, case, res):
+    """Returns (definitions text, [(label, boolean term, diagnostic term)])."""
+    em = Emit("c%d" % k)
+    doms, table, ps, cs, checks = emit_inputs(em, case, res["patches"])
     jt = "join %s %s %s" % (ps, cs, coq_str(case["name"]))
     if case.get("mapjoined"):
         jt = "@bind domain domain (%s) (map_domain %s)" % (jt, coq_str(case["mapjoined"]))
